@@ -64,6 +64,9 @@ def run(ctx):
     ctx.rule("R16.d", "param_schema wraps with JSONNullable iff p.allow_None; JSONNullable is anyOf[schema, {'type': 'null'}]; tuple_schema pins minItems = maxItems = length", floor=3)
     ctx.rule("R16.e", "schema and serialized state are computed from the same Parameter objects: the entry points hand the same object (instance or class) to the serializer, "
                       "and JSONSerialization.schema / serialize_parameters iterate the same pobj.param.objects(...) view", floor=2)
+    ctx.rule("R16.f", "the enum of a selector schema is the live objects the Selector validates against (p.objects), not a view derived from the name mapping", floor=2)
+    ctx.rule("R16.g", "every value class the Number validator accepts is accepted by the emitted schema keywords, also for inclusivity flags that are not literally True/False "
+                      "(0, 1): abstract interpretation of both sides on bounds x flags x ordering class (exhaustive)", floor=1)
     ctx.not_decided += ["that arbitrary serialized values validate against the schema (needs a validator run)", "Selector enum contents (run-time objects)"]
     cls = ctx.repo.cls(SER)
     methods = {m for m in cls.methods if m.endswith("_schema")}
@@ -257,3 +260,60 @@ def run(ctx):
     else:
         ctx.fail("R16.e", f, f.node, "JSONSerialization.schema iterates `%s` but serialize_parameters iterates `%s`" % (views["schema"], views["serialize_parameters"]),
                  key=SER + "::different-view")
+
+    # ---------------------------------------------------------------- R16.f
+    for m in ("selector_schema", "objectselector_schema", "listselector_schema"):
+        f = cls.method(m)
+        enums = []
+        for d in ast.walk(f.node):
+            if isinstance(d, ast.Dict):
+                enums += [v for k, v in zip(d.keys, d.values) if isinstance(k, ast.Constant) and k.value == "enum"]
+            if isinstance(d, ast.Assign) and isinstance(d.targets[0], ast.Subscript) and isinstance(d.targets[0].slice, ast.Constant) and d.targets[0].slice.value == "enum":
+                enums.append(d.value)
+        for e in enums:
+            src = e
+            if isinstance(e, ast.Name):
+                defs = [st.value for st in ast.walk(f.node) if isinstance(st, ast.Assign) and any(isinstance(t, ast.Name) and t.id == e.id for t in st.targets)]
+                src = defs[0] if len(defs) == 1 else e
+            txt = norm(src).replace(" ", "")
+            if txt in ("p.objects", "list(p.objects)", "p._objects", "list(p._objects)"):
+                ctx.ok("R16.f", f, e, "enum is the live objects list")
+            else:
+                ctx.fail("R16.f", f, e, "%s builds `enum` from `%s`, not from the objects the Selector validates against: a value the Parameter accepts (and serializes) "
+                                        "can be missing from its own schema" % (m, norm(src)[:60]), key="%s::enum-source" % f.qualname,
+                         input="dict-declared Selector with check_on_set=False; assign a new value -> the schema's enum does not list it")
+
+    # ---------------------------------------------------------------- R16.g
+    vf = ctx.hier.resolve("param.parameters.Number", "_validate")
+    n2, bad2 = 0, []
+    FLAGS = [True, False, 1, 0]
+    for bounds in BOUNDS_CFGS:
+        if bounds is None:
+            continue
+        for incl in itertools.product(FLAGS, repeat=2):
+            it = Interp(ctx.hier, dyn=SER)
+            outs = it.run_all(dn, {"cls": Obj("cls"), "schema": {"type": "number"}, "bounds": bounds, "inclusive_bounds": incl})
+            if any(o.imprecise or o.kind != "return" for o in outs):
+                raise AnalysisError("absint imprecise on declare_numeric_bounds with flags %r" % (incl,))
+            keys = {k: v for k, v in outs[0].value.items() if k != "type"}
+            for c in [0, 1, 2, 3, 4]:
+                v = Val(c)
+                so = Obj("Number", allow_None=False, bounds=bounds, inclusive_bounds=incl, softbounds=None, step=None)
+                it2 = Interp(ctx.hier, dyn="param.parameters.Number", inline=lambda m: m == "_validate_bounds")
+                try:
+                    vouts = it2.run_all(vf, {vf.params[0]: so, vf.params[1]: v})
+                except Unsupported as e:
+                    raise AnalysisError("absint cannot interpret Number._validate_bounds: %s" % e)
+                if any(o.imprecise for o in vouts):
+                    raise AnalysisError("absint imprecise on Number._validate_bounds with flags %r" % (incl,))
+                n2 += 1
+                accepted = all(o.kind == "return" for o in vouts)
+                if accepted and not schema_accepts(keys, v):
+                    bad2.append((bstr(bounds), incl, repr(v), sorted(keys)))
+    ctx.abstract_cases += n2
+    if bad2:
+        ctx.fail("R16.g", vf, vf.node, "with bounds=%s inclusive_bounds=%r the validator accepts %s but the schema %s rejects it: a valid state does not validate against its own schema" % bad2[0],
+                 key="param.parameters.Number._validate_bounds::schema-stricter-than-validator",
+                 input="Number(bounds=(0, 10), inclusive_bounds=(0, 1)); x = 0 is accepted, schema says exclusiveMinimum 0")
+    else:
+        ctx.ok("R16.g", vf, vf.node, "%d cases: whatever the validator accepts, the schema accepts (flags True/False/1/0)" % n2)
